@@ -505,10 +505,10 @@ type pipeHalf struct {
 	wnotify   chan struct{} // room in the window / reader gone
 	window    int64         // 0 = unbounded; otherwise a write blocks while this many bytes are unread (a full receive + send buffer)
 	cutAfter  int64         // -1 none; bytes beyond are dropped
-	cutHard   bool  // on reaching the cut: reset the connection instead of black-holing
-	written   int64 // bytes accepted from the writer
-	delivered int64 // bytes made readable
-	consumed  int64 // bytes read by the reader
+	cutHard   bool          // on reaching the cut: reset the connection instead of black-holing
+	written   int64         // bytes accepted from the writer
+	delivered int64         // bytes made readable
+	consumed  int64         // bytes read by the reader
 	lastAt    time.Time
 	chunk     int // max bytes per Read (0 = unlimited)
 }
